@@ -53,6 +53,14 @@ PROPS = {
         "level_text": "Theorems: the executor's result is independent of its resource bound (fuel monotonicity for all blocks, hence determinism across bounds), operations never advance the clock themselves, clk pushes the clock. Harness: whole-trace fingerprints of the real processor under expected-cycles hints 1..2^15 and tracing on/off, debug-mode assembly and randomly inserted decorators must equal the base run; the step iterator is walked forward and backward and every revisited state must equal the forward state of the same clock; clk instructions are checked against the row index.",
         "level_note": "Allocation-dependent behaviour is invisible to a Lean model: for those clauses the deciding evidence is the differential run, as stated in DESIGN.md. Trusted: Lean kernel, harness.",
     },
+    "C09": {
+        "module": "Miden.Props.C09",
+        "gens": ["C09"],
+        "diff_is_witness": True,
+        "assumptions": ["Hint-checking instruction sequences (u32clz/ctz/clo/cto, ilog2, ext2inv/div, u64 div) are decided against the instruction reference / integer oracle under a lying host, not yet by a theorem quantifying over all hints"],
+        "level_text": "Theorems with the host universally quantified: MPVERIFY/MRUPDATE complete only with a path of exactly the stated depth that folds the claimed node to the root; for every tree with that root the claimed node is the node at (depth, index) or an RPO merge collision is exhibited (no injectivity assumed) - proved for an arbitrary two-to-one function by induction on the depth; ADVPOP/ADVPOPW/PIPE deliver values in the documented order and fail on a short tape. Harness: a lying Host overrides hint values (0..65, honest+-1, boundary and random field elements) and Merkle paths (other depth, wrong sibling, other tree, reversed) and node values; completed runs are compared with the hint-free reference (Lean Spec / u64 integer oracle / the honest tree) and the model replays exactly what the VM saw.",
+        "level_note": "Known finding C09-ilog2-accepts-wrong-hint is reported, not suppressing other witnesses. Trusted: Lean kernel, harness, miden-crypto MerkleTree/MerkleStore as ground truth for trees.",
+    },
 }
 
 NOT_APPLICABLE = {}
